@@ -585,10 +585,55 @@ fn programs(n: usize, x86: bool) -> Vec<Vec<Ins>> {
     out
 }
 
+/// x86/amd64: EVERY conditional control transfer (16 short and 16 near jcc, loopne/loope/loop/jcxz) ends its block and
+/// gets both successors recovered. `jcc +1; ret; nop; ret`: the target lies behind a `ret`, so it is only ever lifted
+/// through the taken edge; the fall-through `ret` only through the other one.
+fn check_x86_conditional_opcodes(acc: &mut Acc) {
+    let mut encs: Vec<Vec<u8>> = Vec::new();
+    for op in (0x70..=0x7fu8).chain(0xe0..=0xe3u8) {
+        encs.push(vec![op, 0x01]);
+    }
+    for op in 0x80..=0x8fu8 {
+        encs.push(vec![0x0f, op, 0x01, 0, 0, 0]);
+    }
+    for arch in ["amd64", "x86"] {
+        for enc in &encs {
+            acc.count("evaluations", 1);
+            let mut bytes = enc.clone();
+            let fall = BASE + bytes.len() as u64;
+            bytes.extend_from_slice(&[0xc3, 0x90, 0xc3]);
+            let target = fall + 1;
+            let case = || json!({"arch": arch, "conditional_opcode_bytes": crate::util::hex(&bytes)});
+            if !matches!(lifter::lift_block(arch, enc, BASE, false), Lifted::Ok(_)) {
+                acc.count("skipped_instruction_does_not_lift_alone", 1);
+                continue;
+            }
+            let image = archs::image(arch, BASE, &bytes);
+            let translator = archs::arch(arch).translator();
+            let key = |what: &str| format!("C06|conditional-opcode|{}|{}|op={}", what, arch, crate::util::hex(&enc[..enc.len().min(2)]));
+            match guarded(|| translator.translate_function_extended(&image, BASE, &Options::new())) {
+                Ok(Ok(f)) => {
+                    let addrs: BTreeSet<u64> = f.control_flow_graph().blocks().iter().flat_map(|b| b.instructions().iter().filter_map(|i| i.address()).collect::<Vec<_>>()).collect();
+                    for (name, a) in [("fall-through", fall), ("target", target)] {
+                        if !addrs.contains(&a) {
+                            acc.violation(key(&format!("{}-not-recovered", name)), format!("{}: the {} at {:#x} of the conditional transfer at {:#x} is not in the recovered function (addresses {:x?})", crate::util::hex(&bytes), name, a, BASE, addrs), case());
+                        }
+                    }
+                }
+                Ok(Err(e)) => acc.violation(key("recovery-error"), format!("translate_function failed ({}), the instruction lifts in isolation", e), case()),
+                Err(pn) => acc.violation(key(&format!("recovery-panic:{}", panic_class(&pn))), format!("translate_function panicked: {}", pn), case()),
+            }
+        }
+    }
+}
+
 fn run(ctx: &Ctx) -> Acc {
     let mut acc = Acc::new();
     let thorough = ctx.tier.thorough();
     let mut unit = 0u64;
+    if ctx.shard == 0 {
+        check_x86_conditional_opcodes(&mut acc);
+    }
     let arch_list: &[&str] = &["amd64", "x86", "mips", "mipsel", "aarch64", "aarch64eb", "ppc"];
     for arch in arch_list {
         let x86 = *arch == "x86" || *arch == "amd64";
@@ -640,6 +685,10 @@ fn run(ctx: &Ctx) -> Acc {
 
 fn replay(case: &Value) -> Acc {
     let mut acc = Acc::new();
+    if case.get("conditional_opcode_bytes").is_some() {
+        check_x86_conditional_opcodes(&mut acc); // the whole (64-case) table; the case names the failing entry
+        return acc;
+    }
     check(&mut acc, &Case::parse(case));
     acc
 }
